@@ -829,7 +829,7 @@ pub fn int_vector_add(push_state: &mut PushState, _instruction_cache: &Instructi
                     continue; // Out of bounds
                 }
                 let ofs_idx = shifted as usize;
-                iv[0].values[ofs_idx] += iv[1].values[i];
+                iv[0].values[ofs_idx] = iv[0].values[ofs_idx].wrapping_add(iv[1].values[i]);
             }
             push_state.int_vector_stack.push(iv[0].clone());
         }
@@ -852,7 +852,7 @@ pub fn int_vector_subtract(push_state: &mut PushState, _instruction_cache: &Inst
                     continue; // Out of bounds
                 }
                 let ofs_idx = shifted as usize;
-                iv[0].values[ofs_idx] -= iv[1].values[i];
+                iv[0].values[ofs_idx] = iv[0].values[ofs_idx].wrapping_sub(iv[1].values[i]);
             }
             push_state.int_vector_stack.push(iv[0].clone());
         }
@@ -875,7 +875,7 @@ pub fn int_vector_multiply(push_state: &mut PushState, _instruction_cache: &Inst
                     continue; // Out of bounds
                 }
                 let ofs_idx = shifted as usize;
-                iv[0].values[ofs_idx] *= iv[1].values[i];
+                iv[0].values[ofs_idx] = iv[0].values[ofs_idx].wrapping_mul(iv[1].values[i]);
             }
             push_state.int_vector_stack.push(iv[0].clone());
         }
@@ -903,7 +903,7 @@ pub fn int_vector_divide(push_state: &mut PushState, _instruction_cache: &Instru
                 if iv[1].values[i] == 0 {
                     invalid = true;
                 } else {
-                    iv[0].values[ofs_idx] /= iv[1].values[i];
+                    iv[0].values[ofs_idx] = iv[0].values[ofs_idx].wrapping_div(iv[1].values[i]);
                 }
             }
             if !invalid {
@@ -1004,7 +1004,7 @@ pub fn int_vector_loop(push_state: &mut PushState, _instruction_cache: &Instruct
 /// INTVECTOR.MEAN: Pushes the mean of the top INTVECTOR to the float stack
 pub fn int_vector_mean(push_state: &mut PushState, _instruction_cache: &InstructionCache) {
     if let Some(numbers) = push_state.int_vector_stack.get(0) {
-        let sum = numbers.values.iter().sum::<i32>() as f32;
+        let sum = numbers.values.iter().fold(0i32, |acc, x| acc.wrapping_add(*x)) as f32;
         let size = numbers.values.len() as f32;
         push_state.float_stack.push(sum / size);
     }
@@ -1115,7 +1115,9 @@ pub fn int_vector_stack_depth(push_state: &mut PushState, _instruction_cache: &I
 /// INTVECTOR.SUM Pushes the sum of the elements to the INTEGER stack.
 pub fn int_vector_sum(push_state: &mut PushState, _instruction_cache: &InstructionCache) {
     if let Some(ivec) = push_state.int_vector_stack.get(0) {
-        push_state.int_stack.push(ivec.values.iter().sum());
+        push_state
+            .int_stack
+            .push(ivec.values.iter().fold(0i32, |acc, x| acc.wrapping_add(*x)));
     }
 }
 
